@@ -92,8 +92,8 @@ func (ss *session) eval(src string, maxDur time.Duration) (res runOut) {
 func toVal(o object.Object) gt.Val { return toValD(o, 0) }
 
 func toValD(o object.Object, depth int) gt.Val {
-	if depth > 150 { // a container that (through in-place aliasing) contains itself
-		return "<nesting deeper than 150: cyclic container?>"
+	if depth > 20000 { // a container that (through in-place aliasing) contains itself; legitimate values nest far less within the budgets
+		return "<nesting deeper than 20000: cyclic container?>"
 	}
 	o = object.Value(o)
 	switch v := o.(type) {
